@@ -988,20 +988,15 @@ func (pc *PartitionContext) allocate(result *objects.AllocationResult) *objects.
 
 // unwindRemovedAppAllocation cleans up after an allocation that was made while the application was removed from the
 // partition. The application removal releases the new allocation with all the others of the application: the
-// application, queue and user trackers are updated, and the allocation counters of the partition are decreased.
-// The node ID is only set on an allocation after this point: the removal cannot find the node to remove the
-// allocation from. Remove it from the node here, and count the allocation as the removal has, or will, discount it.
+// application, queue, node and user trackers are updated, and the allocation counters of the partition are decreased.
+// Count the allocation here as the removal has, or will, discount it.
 // NOTE: this is a lock free call. It must NOT be called holding the PartitionContext lock.
 func (pc *PartitionContext) unwindRemovedAppAllocation(result *objects.AllocationResult) {
 	if result.ResultType != objects.Allocated && result.ResultType != objects.AllocatedReserved {
 		return
 	}
-	alloc := result.Request
-	if node := pc.GetNode(result.NodeID); node != nil {
-		node.RemoveAllocation(alloc.GetAllocationKey())
-	}
 	pc.updateAllocationCount(1)
-	if alloc.IsPlaceholder() {
+	if result.Request.IsPlaceholder() {
 		pc.incPhAllocationCount()
 	}
 }
